@@ -195,6 +195,170 @@ fn record(out_path: &str, runs: usize, len: usize) {
     out.finish();
 }
 
+
+// ------------------------------------------------------------------------------------------------
+// file format: C06
+// ------------------------------------------------------------------------------------------------
+fn fmt2(fmt: &str, endian: &str) -> (TextArchiveFormat, Endian) {
+    (
+        if fmt == "unicode" { TextArchiveFormat::Unicode } else { TextArchiveFormat::ShiftJIS },
+        if endian == "be" { Endian::Big } else { Endian::Little },
+    )
+}
+fn msg_to_string(m: &Value, fmt: &str) -> Option<String> {
+    if fmt == "unicode" {
+        let units: Vec<u16> = m.as_array().unwrap().iter().map(|x| x.as_u64().unwrap() as u16).collect();
+        String::from_utf16(&units).ok()
+    } else {
+        Some(sjis_to_string(&json_to_bytes(m)))
+    }
+}
+fn string_to_msg(s: &str, fmt: &str) -> Value {
+    if fmt == "unicode" {
+        str_to_utf16(s)
+    } else {
+        match string_to_sjis(s) {
+            Some(b) => bytes_to_json(&b),
+            None => json!([-1]),
+        }
+    }
+}
+fn sj(s: &str) -> Value {
+    match string_to_sjis(s) {
+        Some(b) => bytes_to_json(&b),
+        None => json!([-1]),
+    }
+}
+fn text_value(a: &TextArchive, fmt: &str) -> Value {
+    let entries: Vec<Value> = a.get_entries().iter().map(|(k, m)| json!([sj(k), string_to_msg(m, fmt)])).collect();
+    json!({"title": sj(a.get_title()), "entries": entries})
+}
+
+fn format_replay(cases_path: &str, out_path: &str) {
+    let cases = read_ndjson(cases_path);
+    let mut out = NdWriter::create(out_path);
+    let (mut n, mut bad) = (0u64, 0u64);
+    for (i, c) in cases.iter().enumerate() {
+        n += 1;
+        let fmt = c["fmt"].as_str().unwrap();
+        let endian = c["endian"].as_str().unwrap();
+        let (f, e) = fmt2(fmt, endian);
+        let expect_title = if fmt == "unicode" { c["title"].clone() } else { json!([]) };
+        let expected = json!({"title": expect_title, "entries": c["entries"]});
+        let image = json_to_bytes(&c["image"]);
+        let r = catch(|| -> Result<(), (String, String)> {
+            let mut a = TextArchive::new(f, e);
+            a.set_title(sjis_to_string(&json_to_bytes(&c["title"])));
+            for kv in c["entries"].as_array().unwrap() {
+                let m = msg_to_string(&kv[1], fmt).ok_or(("harness".to_string(), "invalid utf16 in case".to_string()))?;
+                a.set_message(&sjis_to_string(&json_to_bytes(&kv[0])), &m);
+            }
+            let stored = text_value(&a, fmt);
+            if stored["entries"] != c["entries"] {
+                return Err(("harness".to_string(), format!("stored entries differ from the case: {}", stored)));
+            }
+            let bytes = a.serialize().map_err(|x| ("serialize".to_string(), x.to_string()))?;
+            if c["exact"].as_bool().unwrap_or(true) && bytes != image {
+                return Err(("image".to_string(), format!("serialized bytes differ from the specification image: got {:?}", bytes)));
+            }
+            let b = TextArchive::from_bytes(&bytes, f, e).map_err(|x| ("parse".to_string(), x.to_string()))?;
+            let got = text_value(&b, fmt);
+            if got != expected {
+                return Err(("roundtrip".to_string(), format!("re-parsed value differs: got {}", got)));
+            }
+            let b2 = TextArchive::from_bytes(&image, f, e).map_err(|x| ("parse-image".to_string(), x.to_string()))?;
+            if text_value(&b2, fmt) != expected {
+                return Err(("parse-image".to_string(), format!("parse of the specification image differs: got {}", text_value(&b2, fmt))));
+            }
+            if b.is_dirty() {
+                return Err(("roundtrip".to_string(), "parsed archive is dirty".to_string()));
+            }
+            Ok(())
+        });
+        let (what, why) = match r {
+            Ok(Ok(())) => continue,
+            Ok(Err((w, y))) => (w, y),
+            Err(p) => ("panic".to_string(), p),
+        };
+        bad += 1;
+        let first_unit = c["entries"].as_array().unwrap().iter().filter_map(|kv| kv[1].as_array().unwrap().first().cloned()).collect::<Vec<_>>();
+        out.put(&json!({"kind": if what == "harness" { "unbuildable" } else { "mismatch" }, "what": what, "why": why, "i": i,
+                        "fmt": fmt, "endian": endian, "first_units": first_unit, "case": c}));
+    }
+    out.put(&json!({"kind": "summary", "cases": n, "mismatches": bad}));
+    out.finish();
+}
+
+fn random_text(rng: &mut Rng, fmt: &str) -> String {
+    let n = match rng.below(10) {
+        0 => 0,
+        1 => rng.range(20, 60),
+        _ => rng.range(1, 9),
+    };
+    let sjis_pool: Vec<char> = "AZaz09 !~\\ｱｶﾝあいんアソ表十能日本語、。".chars().collect();
+    let mut s = String::new();
+    for k in 0..n {
+        let c = if fmt == "unicode" {
+            match rng.below(12) {
+                0 if k == 0 => '\u{FEFF}',
+                1 if k == 0 => '\u{FFFE}',
+                2 if k == 0 => '\u{BBEF}',
+                3 => char::from_u32(0x10000 + rng.below(0x100000) as u32).unwrap_or('x'),
+                4 => char::from_u32(0x100 * rng.range(1, 0xD7) as u32).unwrap_or('x'), // low byte 00
+                5 | 6 => char::from_u32(rng.range(1, 0xD7FF) as u32).unwrap_or('x'),
+                7 => char::from_u32(rng.range(0xE000, 0xFFFF) as u32).unwrap_or('x'),
+                _ => (0x20u8 + rng.below(0x5f) as u8) as char,
+            }
+        } else {
+            *rng.pick(&sjis_pool)
+        };
+        s.push(c);
+    }
+    // set_message turns the two characters backslash, n into a newline: keep the stored text = the argument
+    s.replace("\\n", "\\ n")
+}
+
+fn format_record(out_path: &str, n: usize, max_entries: usize) {
+    let mut rng = Rng::new(seed_from_env() ^ 0xC06);
+    let mut out = NdWriter::create(out_path);
+    for run in 0..n {
+        let fmt = if run % 2 == 0 { "unicode" } else { "sjis" };
+        let endian = if (run / 2) % 2 == 0 { "le" } else { "be" };
+        let (f, e) = fmt2(fmt, endian);
+        let mut a = TextArchive::new(f, e);
+        if rng.chance(2, 3) {
+            a.set_title(random_text(&mut rng, "sjis"));
+        }
+        let ne = if run % 7 == 0 { 0 } else { rng.range(1, max_entries) };
+        for k in 0..ne {
+            let key = if rng.chance(1, 10) { random_text(&mut rng, "sjis") } else { format!("MID_{}_{}", run, k) };
+            if !sjis_lossless(&key) {
+                continue;
+            }
+            let m = random_text(&mut rng, fmt);
+            if fmt == "sjis" && !sjis_lossless(&m) {
+                continue;
+            }
+            a.set_message(&key, &m);
+        }
+        if !sjis_lossless(a.get_title()) {
+            a.set_title(String::new());
+        }
+        let v = text_value(&a, fmt);
+        let r = catch(|| -> Result<Value, String> {
+            let bytes = a.serialize().map_err(|x| format!("serialize: {}", x))?;
+            let b = TextArchive::from_bytes(&bytes, f, e).map_err(|x| format!("from_bytes: {}", x))?;
+            Ok(json!({"bytes": bytes, "reparsed": text_value(&b, fmt)}))
+        });
+        match r {
+            Ok(Ok(x)) => out.put(&json!({"op": "text", "fmt": fmt, "endian": endian, "title": v["title"], "entries": v["entries"],
+                                          "bytes": x["bytes"], "reparsed": x["reparsed"]})),
+            Ok(Err(why)) | Err(why) => out.put(&json!({"op": "failed", "fmt": fmt, "endian": endian, "title": v["title"], "entries": v["entries"], "why": why})),
+        }
+    }
+    out.finish();
+}
+
 fn main() {
     install_panic_hook();
     let args: Vec<String> = std::env::args().skip(1).collect();
@@ -202,6 +366,8 @@ fn main() {
     match args.first().map(|s| s.as_str()) {
         Some("replay") if args.len() == 3 => replay(&args[1], &args[2]),
         Some("record") if args.len() == 4 => record(&args[1], args[2].parse().unwrap(), args[3].parse().unwrap()),
+        Some("format-replay") if args.len() == 3 => format_replay(&args[1], &args[2]),
+        Some("format-record") if args.len() == 4 => format_record(&args[1], args[2].parse().unwrap(), args[3].parse().unwrap()),
         _ => usage("mvh_text replay <cases.ndjson> <out.ndjson> | record <out.ndjson> <runs> <len>"),
     }
 }
